@@ -257,9 +257,18 @@ def run(ctx):
             """membership facts a filtering generator helper establishes for the elements it yields"""
             out_ = []
             if isinstance(gen.target, ast.Name):
-                for var, a_ in _so(fx_, gen.iter, prog, f).get("gen_facts", []):
+                so_ = _so(fx_, gen.iter, prog, f)
+                for var, a_ in so_.get("gen_facts", []):
                     if a_[0] == "in" and a_[3] is True and a_[1] == var:
                         out_.append((gen.target.id, a_[2]))
+                # filters of the (identity) generator expressions the elements pass through on their way here
+                from sa import paths as _Pc
+
+                al_ = _Pc.aliases(fx_)
+                for var, cond in so_.get("conds", []):
+                    for a_ in _Pc.atoms(cond, True, al_):
+                        if a_[0] == "in" and a_[3] is True and a_[1] == var:
+                            out_.append((gen.target.id, a_[2]))
             return out_
 
         ds = derefs(fx_, map_pred, iter_facts, guard_pred)
@@ -341,7 +350,7 @@ def run(ctx):
     pc = part_construction(pf, prog)
     src_ok = False
     if pc is not None:
-        src = source_of(pf.node, pc[2], prog, pf)
+        src = source_of(pc[3], pc[2], prog, pf)   # (the canonical node the construction was found in)
         src_ok = norm(ast.parse(src["terminal"], mode="eval").body, al) == "self._xml_rels" if src["terminal"] else False
     ld = ldr.methods.get("_load")
     use_ok = False
